@@ -52,7 +52,7 @@ func keyshareResponseGuards(P *Program, R *Report) {
 	acc := AcceptNilErr(1)
 	// every element with KeyID has a known key
 	fa := &ForAll{P: P, Spec: ForAllSpec{Coll: is(ksReq + ".UserChallengeInput"), Body: func(f *ssa.Function, l *Loop) *MustPass {
-		return &MustPass{NoInterproc: true, Match: func(a Atom) bool {
+		return &MustPass{Match: func(a Atom) bool {
 			d := desc(a.V)
 			if d == ksElem+".KeyID" && a.Want == Nil {
 				return true // does not participate
@@ -63,7 +63,7 @@ func keyshareResponseGuards(P *Program, R *Report) {
 	m := fa.inFn(fn, acc)
 	R.decide(rule, kKSResponse+":known-keys", "response => every challenge-input element with a KeyID refers to a key the server knows", m.holds, m.detail, P.Pos(fn.Pos()))
 	var cmp *ssa.Call
-	mp(P, R, rule, kKSResponse+":hash-compared", "response => ConstantTimeCompare(hash(second-message input), commRequest.HashedUserCommitments) == 1", fn, acc, &MustPass{NoInterproc: true, Match: func(a Atom) bool {
+	mp(P, R, rule, kKSResponse+":hash-compared", "response => ConstantTimeCompare(hash(second-message input), commRequest.HashedUserCommitments) == 1", fn, acc, &MustPass{Match: func(a Atom) bool {
 		x, y, ok := parseEq(a)
 		if !ok {
 			return false
@@ -100,7 +100,7 @@ func keyshareResponseGuards(P *Program, R *Report) {
 			return
 		}
 		n++
-		r := (&MustPass{P: P, NoInterproc: true, Match: func(a Atom) bool {
+		r := (&MustPass{P: P, Match: func(a Atom) bool {
 			x, y, ok := parseEq(a)
 			return ok && (strings.HasPrefix(desc(x), "call:"+kKSHash) || strings.HasPrefix(desc(y), "call:"+kKSHash))
 		}}).MustReach(fn, c)
@@ -533,14 +533,13 @@ func buildDistributedRule(P *Program, R *Report) {
 	if fn == nil {
 		return
 	}
-	mp(P, R, rule, kBuildDist+":length", "a list is returned only if no ProofP list was given or it has one entry per builder", fn, AcceptNilErr(1), &MustPass{NoInterproc: true,
-		Exempt: func(a Atom) bool { return desc(a.V) == "arg#2" && a.Want == Nil },
+	mp(P, R, rule, kBuildDist+":length", "a list is returned only if no ProofP list was given or it has one entry per builder", fn, AcceptNilErr(1), &MustPass{Exempt: func(a Atom) bool { return desc(a.V) == "arg#2" && a.Want == Nil },
 		Match: func(a Atom) bool {
 			g, ok := parseGuard(a, nil)
 			return ok && g.Kind == "int" && g.Rel == "==" && ((g.Subject == "len(arg#0)" && g.BoundA.String() == "len(arg#2)") || (g.Subject == "len(arg#2)" && g.BoundA.String() == "len(arg#0)"))
 		}})
 	fa := &ForAll{P: P, Spec: ForAllSpec{Coll: is("arg#0"), Body: func(f *ssa.Function, l *Loop) *MustPass {
-		return &MustPass{NoInterproc: true, Instr: func(_ *ssa.Function, i ssa.Instruction) bool {
+		return &MustPass{Instr: func(_ *ssa.Function, i ssa.Instruction) bool {
 			st, ok := i.(*ssa.Store)
 			return ok && desc(st.Addr) == "makeslice[#i]" && desc(st.Val) == "call:invoke:gabi.ProofBuilder.CreateProof(arg#0[#i],arg#1)"
 		}}
@@ -548,8 +547,7 @@ func buildDistributedRule(P *Program, R *Report) {
 	m := fa.inFn(fn, AcceptNilErr(1))
 	R.decide(rule, kBuildDist+":every-builder", "every builder's proof is created with the given challenge and stored at its position", m.holds, m.detail, P.Pos(fn.Pos()))
 	fa2 := &ForAll{P: P, Spec: ForAllSpec{Coll: is("arg#0"), Body: func(f *ssa.Function, l *Loop) *MustPass {
-		return &MustPass{NoInterproc: true,
-			Match: func(a Atom) bool {
+		return &MustPass{Match: func(a Atom) bool {
 				d := desc(a.V)
 				return (d == "arg#2" && a.Want == Nil) || (d == "arg#2[#i]" && a.Want == Nil)
 			},
